@@ -59,15 +59,15 @@ theorem underscore_not_allowed (s : Settings E) (n : Name) (h : startsUnderscore
 /-- C07.underscore_denied: whatever the settings (switches, whitelist - even one that names the
     member explicitly -, blacklist, remapping), a name starting with `_` is refused for attribute,
     method and index access, and no host access happens -/
-theorem underscore_denied (s : Settings E) (n : Name) (h : startsUnderscore n = true) :
-    attribution s n = .error .attributeError ∧ opDot s n = .error .attributeError ∧
+theorem underscore_denied (s : Settings E) (n : Name) (kws : List Name) (h : startsUnderscore n = true) :
+    attribution s n = .error .attributeError ∧ opDot s n kws = .error .attributeError ∧
     indexation s n = .error .keyError := by
   simp [attribution, opDot, indexation, validateName, h]
 
 /-- the same through the type check: for every host object and every access form -/
-theorem underscore_denied_access (k : Kind) (h : Host E) (n : Name) (hn : startsUnderscore n = true) :
-    ∃ e, access k h n = .error e := by
-  have hu := fun s => underscore_denied (E := E) s n hn
+theorem underscore_denied_access (k : Kind) (h : Host E) (n : Name) (kws : List Name)
+    (hn : startsUnderscore n = true) : ∃ e, access k h n kws = .error e := by
+  have hu := fun s => underscore_denied (E := E) s n kws hn
   unfold access
   cases h with
   | none => exact ⟨_, rfl⟩
@@ -170,15 +170,18 @@ theorem attribution_denied_iff (s : Settings E) (n : Name) :
   · rw [h]; cases remapName s n <;> simp
   · rw [h]; simp
 
-theorem opDot_denied_iff (s : Settings E) (n : Name) :
-    opDot s n = .error .attributeError ↔ allowed s n = false := by
+theorem opDot_denied_iff (s : Settings E) (n : Name) (kws : List Name) :
+    opDot s n kws = .error .attributeError ↔ allowed s n = false := by
   rw [← validate_error_iff_denied .attributeError]
   unfold opDot
   rcases validate_cases .attributeError s n with h | h
   · rw [h]
     cases remapName s n with
     | name m => simp
-    | tuple m am => cases am <;> simp
+    | tuple m am =>
+      cases am with
+      | none => simp
+      | some x => cases hrn : renamesKw x kws <;> simp [hrn]
   · rw [h]; simp
 
 theorem indexation_denied_iff (s : Settings E) (n : Name) :
@@ -192,17 +195,17 @@ theorem indexation_denied_iff (s : Settings E) (n : Name) :
 /-- C07.same_decision: for the same name and settings the attribute, method and indexer paths take
     the same allow/deny decision ("Cannot access <name>": AttributeError on the first two,
     KeyError on the third) -/
-theorem same_decision (s : Settings E) (n : Name) :
-    (attribution s n = .error .attributeError ↔ opDot s n = .error .attributeError) ∧
-    (opDot s n = .error .attributeError ↔ indexation s n = .error .keyError) := by
+theorem same_decision (s : Settings E) (n : Name) (kws : List Name) :
+    (attribution s n = .error .attributeError ↔ opDot s n kws = .error .attributeError) ∧
+    (opDot s n kws = .error .attributeError ↔ indexation s n = .error .keyError) := by
   rw [attribution_denied_iff, opDot_denied_iff, indexation_denied_iff]
   exact ⟨Iff.rfl, Iff.rfl⟩
 
 /-- what an allowed access reaches: attribute and method access reach the REMAPPED member,
     the indexer reaches the key as written (no remapping on that path - as the code is) -/
-theorem reached_member (s : Settings E) (n : Name) (a : Access) :
+theorem reached_member (s : Settings E) (n : Name) (kws : List Name) (a : Access) :
     (attribution s n = .ok a → allowed s n = true ∧ a = .getattr (remapName s n).target) ∧
-    (opDot s n = .ok a → allowed s n = true ∧ a.member = (remapName s n).target) ∧
+    (opDot s n kws = .ok a → allowed s n = true ∧ a.member = (remapName s n).target) ∧
     (indexation s n = .ok a → allowed s n = true ∧ a = .getitem n) := by
   refine ⟨?_, ?_, ?_⟩
   · unfold attribution
@@ -220,7 +223,8 @@ theorem reached_member (s : Settings E) (n : Name) (a : Access) :
       | tuple m am =>
         cases am with
         | none => simp
-        | some x => simp [ha, RemapTarget.target]; intro h'; rw [← h']; rfl
+        | some x =>
+          cases hrn : renamesKw x kws <;> (simp [ha, hrn, RemapTarget.target]; intro h'; rw [← h']; rfl)
     · rw [h]; simp
   · unfold indexation
     rcases validate_cases .keyError s n with h | h
@@ -229,13 +233,20 @@ theorem reached_member (s : Settings E) (n : Name) (a : Access) :
     · rw [h]; simp
 
 /-- an allowed name with a plain (string) remapping is reached on all three paths -/
-theorem allowed_reaches (s : Settings E) (n m : Name) (ha : allowed s n = true)
+theorem allowed_reaches (s : Settings E) (n m : Name) (kws : List Name) (ha : allowed s n = true)
     (hr : remapName s n = .name m) :
-    attribution s n = .ok (.getattr m) ∧ opDot s n = .ok (.callattr m []) ∧
+    attribution s n = .ok (.getattr m) ∧ opDot s n kws = .ok (.callattr m []) ∧
     indexation s n = .ok (.getitem n) := by
   have h1 := (validate_ok_iff_allowed .attributeError s n).2 ha
   have h2 := (validate_ok_iff_allowed .keyError s n).2 ha
   simp [attribution, opDot, indexation, h1, h2, hr]
+
+/-- keyword renaming (tuple remappings): the call is made when no passed keyword is renamed away;
+    otherwise the member was fetched but is not called (the dict-mutation RuntimeError of `op_dot`) -/
+example : opDot (E := Entry) { remapping := [("am".toList, .tuple "meth".toList (some [("a".toList, "b".toList)]))] }
+    "am".toList ["a".toList] = .ok (.attrThenRaise "meth".toList) := by decide
+example : opDot (E := Entry) { remapping := [("am".toList, .tuple "meth".toList (some [("a".toList, "b".toList)]))] }
+    "am".toList ["c".toList] = .ok (.callattr "meth".toList [("a".toList, "b".toList)]) := by decide
 
 /-! ## the type check -/
 
@@ -243,18 +254,19 @@ omit [EntryLike E] in
 /-- an object without yaqlization settings is refused by every `Yaqlized(..)` parameter -/
 theorem check_none (f : Flags) : check (E := E) f none = false := rfl
 
-theorem not_yaqlized_no_access (k : Kind) (n : Name) : access (E := E) k none n = .error .notYaqlized := rfl
+theorem not_yaqlized_no_access (k : Kind) (n : Name) (kws : List Name) :
+    access (E := E) k none n kws = .error .notYaqlized := rfl
 
 /-- a switched-off access form is refused whatever the name -/
-theorem switch_off_no_access (s : Settings E) (n : Name) :
-    (s.yaqlizeAttributes = false → access .attr (some s) n = .error .notYaqlized) ∧
-    (s.yaqlizeMethods = false → access .method (some s) n = .error .notYaqlized) ∧
-    (s.yaqlizeIndexer = false → access .index (some s) n = .error .notYaqlized) := by
+theorem switch_off_no_access (s : Settings E) (n : Name) (kws : List Name) :
+    (s.yaqlizeAttributes = false → access .attr (some s) n kws = .error .notYaqlized) ∧
+    (s.yaqlizeMethods = false → access .method (some s) n kws = .error .notYaqlized) ∧
+    (s.yaqlizeIndexer = false → access .index (some s) n kws = .error .notYaqlized) := by
   refine ⟨?_, ?_, ?_⟩ <;> intro h <;> simp [access, check, Kind.flags, h]
 
 /-- every successful access went through the type check and the name validation -/
-theorem access_ok_checked (k : Kind) (h : Host E) (n : Name) (a : Access)
-    (hok : access k h n = .ok a) :
+theorem access_ok_checked (k : Kind) (h : Host E) (n : Name) (kws : List Name) (a : Access)
+    (hok : access k h n kws = .ok a) :
     ∃ s, h = some s ∧ check k.flags h = true ∧ allowed s n = true ∧ startsUnderscore n = false := by
   cases h with
   | none => simp [access] at hok
@@ -264,9 +276,9 @@ theorem access_ok_checked (k : Kind) (h : Host E) (n : Name) (a : Access)
     · rw [if_pos hc] at hok
       have hall : allowed s n = true := by
         cases k
-        · exact ((reached_member s n a).1 hok).1
-        · exact ((reached_member s n a).2.1 hok).1
-        · exact ((reached_member s n a).2.2 hok).1
+        · exact ((reached_member s n kws a).1 hok).1
+        · exact ((reached_member s n kws a).2.1 hok).1
+        · exact ((reached_member s n kws a).2.2 hok).1
       refine ⟨s, rfl, hc, hall, ?_⟩
       cases hu : startsUnderscore n
       · rfl
